@@ -1566,12 +1566,39 @@ def np_power(interp, a, b):
     return NDArr(r) if isinstance(r, list) else r
 
 
+def _int_dtype(dtype):
+    return dtype is int or getattr(dtype, 'name', None) in ('int', 'integer', 'int64', 'int32') or \
+        dtype in ('int', 'int64', 'int32', 'i8', 'i4')
+
+
 def np_zeros(interp, shape, dtype=None, **kw):
-    return np_full(interp, shape, Fraction(0))
+    r = np_full(interp, shape, Fraction(0))
+    if _int_dtype(dtype) and isinstance(r, NDArr):
+        r.int_dtype = True        # values stored later are truncated towards zero
+    return r
 
 
 def np_ones(interp, shape, dtype=None, **kw):
-    return np_full(interp, shape, Fraction(1))
+    r = np_full(interp, shape, Fraction(1))
+    if _int_dtype(dtype) and isinstance(r, NDArr):
+        r.int_dtype = True
+    return r
+
+
+def _trunc(interp, v):
+    """C-style conversion of a real to an integer array element"""
+    if isinstance(v, bool):
+        return int(v)
+    if isinstance(v, (int,)):
+        return v
+    if isinstance(v, Fraction):
+        return Fraction(int(v))
+    if isinstance(v, Sym) and v.kind == 'int':
+        return v
+    if isinstance(v, Sym):
+        t = z3real(v)
+        return mk(z3.If(t >= 0, z3.ToReal(z3.ToInt(t)), -z3.ToReal(z3.ToInt(-t))))
+    raise Unsupported('store of %r into an integer array' % (type(v),))
 
 
 def np_array_equal(interp, a, b):
@@ -1642,11 +1669,16 @@ def nd_getitem(interp, arr, idx):
 
 def nd_setitem(interp, arr, idx, v):
     d = arr.data
+    if getattr(arr, 'int_dtype', False):
+        vd_ = _asdata(interp, v)
+        v = NDArr(map_arr(lambda x: _trunc(interp, x), vd_)) \
+            if isinstance(vd_, list) else _trunc(interp, vd_)
     if isinstance(idx, tuple):
         if len(idx) == 1:
             return nd_setitem(interp, arr, idx[0], v)
         k = interp.concretize_index(idx[0], len(d))
-        return nd_setitem(interp, NDArr(d[k]), idx[1:] if len(idx) > 2
+        sub = NDArr(d[k])
+        return nd_setitem(interp, sub, idx[1:] if len(idx) > 2
                           else idx[1], v)
     if isinstance(idx, slice):
         sl = interp._slice(idx, len(d))
